@@ -1,8 +1,36 @@
 import Solvor.Common.Proto
 import Solvor.Assign.Model
-/-! Assign: line-protocol handler. One request line in, one reply line out. -/
-namespace Solvor.Assign
+/-! Assign: line-protocol handler.
 
-def handle (line : String) : String := "unimplemented " ++ line
+request `["case", matrix, minimize, implAsg | null]`
+  matrix  : list of rows of exact rationals `[num, den]`
+  implAsg : the implementation's `assignment` (list of ints) or `null` (it raised)
+reply `[asg, obj, iters, evals, u, v, stuck, rect, chkModel, implValid, implChk, implObj]`
+  asg … stuck : the mirror `hungarian` (assignment, objective, counters, potentials of the padded square)
+  rect        : the matrix is rectangular
+  chkModel    : verified checker `chkAssignment` on the mirror's own assignment and potentials
+  implValid   : `validAsgB` on the implementation's assignment            (null if none sent)
+  implChk     : `chkAssignment` on the implementation's assignment with the mirror's potentials
+  implObj     : `objOf` = Σ chosen entries of the implementation's assignment
+-/
+namespace Solvor.Assign
+open Solvor.Proto
+
+def handle (line : String) : String :=
+  match request line with
+  | some ("case", [mat, mn, impl]) =>
+    match mat.toRatss?, mn.toBool?, impl.toOpt? Val.toInts? with
+    | some m, some mn, some impl =>
+      let o := hungarian m mn
+      let mx := maxVal m
+      let implPart : List Val := match impl with
+        | none => [Val.null, Val.null, Val.null]
+        | some a => [Val.bool (validAsgB (nRows m) (nCols m) a),
+                     Val.bool (chkAssignment m mn mx a o.u o.v), Val.ofRat (objOf m a)]
+      (Val.arr ([Val.ofInts o.asg, Val.ofRat o.obj, Val.int o.iters, Val.int o.evals,
+        Val.ofRats o.u, Val.ofRats o.v, Val.bool o.stuck, Val.bool (rectB m),
+        Val.bool (chkAssignment m mn mx o.asg o.u o.v)] ++ implPart)).render
+    | _, _, _ => err "bad arguments"
+  | _ => err "bad request"
 
 end Solvor.Assign
